@@ -31,9 +31,9 @@ func (w *c17Worker) runChurn(res *runner.CaseResult, idx int) {
 		return a
 	}
 	publisher := actor(9999)
-	rounds := 2500
+	rounds := 8000
 	if w.tier == "thorough" {
-		rounds = 12000
+		rounds = 30000
 	}
 	cur, _, err := ps.Subscribe(ctx, actor(0), docKey, 0)
 	if err != nil {
@@ -76,30 +76,29 @@ func (w *c17Worker) runChurn(res *runner.CaseResult, idx int) {
 			res.Violate("call-failed", fmt.Sprintf("round %d: Subscribe: %v", r, serr), "", replay)
 			return
 		}
-		ps.Publish(ctx, publisher, events.DocEvent{Type: events.DocChanged, Key: docKey, Actor: publisher})
-		got := false
-		select {
-		case e, ok := <-nsub.Events():
-			got = !ok || e.Type == events.DocChanged
-			if ok && e.Type != events.DocChanged {
-				got = true // some event reached it: the subscription is wired
-			}
-		case <-gotime.After(5 * gotime.Second):
+		// the new watcher's Subscribe has returned and its Unsubscribe has not started: the
+		// document's subscription set must hold exactly it
+		ids := ps.ClientIDs(docKey)
+		if len(ids) != 1 || ids[0].Compare(next) != 0 {
+			res.Violate("subscription-lost", fmt.Sprintf("round %d: the only watcher unsubscribed while the next one subscribed; Subscribe returned, but ClientIDs lists %d subscription(s) and not exactly the new watcher: it will never be notified", r, len(ids)), "", replay)
+			return
 		}
 		res.AddStat("churn_rounds_judged", 1)
-		if !got {
-			listed := false
-			for _, id := range ps.ClientIDs(docKey) {
-				if id.Compare(next) == 0 {
-					listed = true
-				}
+		if r%400 == 0 || r == rounds {
+			// delivery itself (one batch window per probe)
+			ps.Publish(ctx, publisher, events.DocEvent{Type: events.DocChanged, Key: docKey, Actor: publisher})
+			got := false
+			select {
+			case _, ok := <-nsub.Events():
+				_ = ok
+				got = true // an event, or a closed channel
+			case <-gotime.After(5 * gotime.Second):
 			}
-			res.Violate("notification-missing", fmt.Sprintf("round %d: the only watcher unsubscribed while the next one subscribed; Subscribe returned, then a DocChanged was published: the new watcher received nothing within 5 s and its channel is open (listed by ClientIDs: %v)", r, listed), "", replay)
-			return
-		}
-		if len(ps.ClientIDs(docKey)) != 1 {
-			res.Violate("subscription-leaked", fmt.Sprintf("round %d: one watcher is subscribed, ClientIDs lists %d", r, len(ps.ClientIDs(docKey))), "", replay)
-			return
+			res.AddStat("churn_deliveries_judged", 1)
+			if !got {
+				res.Violate("notification-missing", fmt.Sprintf("round %d: after %d rounds in which the only watcher unsubscribed while the next one subscribed, the current watcher received nothing within 5 s of a publish and its channel is open", r, r), "", replay)
+				return
+			}
 		}
 		cur = nsub
 		overtakes++
